@@ -29,6 +29,8 @@ def replay(task):
     Lk, B, init, mx = task["L"], task["B"], task["init"], task["max"]
     keys = [np.array(k, dtype=np.int64) for k in task["keys"]]
     bad = []
+    notes = []
+    ndiv = 0
     n = 0
     flushes = 0
     for st in task["states"]:
@@ -47,12 +49,22 @@ def replay(task):
         want = {k: st[k] for k in ("en", "ev", "lt", "lv", "tree", "values")}
         want["gets"] = sorted([list(a), b] for a, b in st["gets"])
         n += 1
+        # deciding clause (what C09 states): the cache may forget, it never lies
+        last = {}
+        for h in st["hist"]:
+            last[tuple(h["key"])] = int(h["v"])
+        for k, v in got["gets"]:
+            if v != NANQ and last.get(tuple(k)) != v:
+                bad.append({"hist": st["hist"], "fields": ["gets"], "key": k, "impl": v, "last_stored": last.get(tuple(k), "never stored")})
+        # agreement with the faithful model of arraymap.py (layout, growth, flush points): informational
         if got != want:
             diff = [k for k in want if got[k] != want[k]]
-            bad.append({"hist": st["hist"], "fields": diff, "impl": {k: got[k] for k in diff}, "model": {k: want[k] for k in diff}})
-            if len(bad) > 5:
-                break
-    return {"n": n, "bad": bad, "flushes": flushes}
+            if len(notes) < 3:
+                notes.append({"hist": st["hist"], "fields": diff, "impl": {k: got[k] for k in diff}, "model": {k: want[k] for k in diff}})
+            ndiv += 1
+        if len(bad) > 5:
+            break
+    return {"n": n, "bad": bad, "flushes": flushes, "faithful_model_divergences": ndiv, "divergence_samples": notes}
 
 
 # ---------------------------------------------------------------- reads
@@ -159,8 +171,9 @@ def call_trace(task):
 
     def wrap(reads, read_counts, haplotypes, genotype_alleles, cache=None):
         idx = int(J.genotype_alleles_as_index(np.sort(genotype_alleles)))
-        hit = cache is not None and idx in cache
+        n0 = len(cache) if cache is not None else 0
         v = orig(reads, read_counts, haplotypes, genotype_alleles, cache)
+        hit = cache is not None and len(cache) == n0  # served without inserting (independent of the key format)
         f = log_likelihood(task_reads, haps[np.sort(genotype_alleles)], read_counts=task_counts)
         if cache is not None:
             events.append({"op": "dget", "key": [0, idx], "hit": bool(hit), "ret": q(v), "fresh": q(f)})
@@ -216,10 +229,10 @@ def ped_trace(task):
     orig = PM.log_likelihood_alleles_cached
 
     def wrap(reads, read_counts, haplotypes, sample, genotype_alleles, cache=None):
-        idx = int(J.genotype_alleles_as_index(genotype_alleles))
-        key = (sample, idx)
-        hit = cache is not None and key in cache
+        idx = int(J.genotype_alleles_as_index(np.sort(genotype_alleles)))
+        n0 = len(cache) if cache is not None else 0
         v = orig(reads, read_counts, haplotypes, sample, genotype_alleles, cache)
+        hit = cache is not None and len(cache) == n0  # served without inserting (independent of the key format)
         m = src[sample] > 0
         f = log_likelihood(srd[sample][m], haps[np.sort(genotype_alleles)], read_counts=src[sample][m])
         import sys as _sys
